@@ -25,6 +25,7 @@ THEOREMS = [
     "Docstring.recovered_errors_reported",
     "Docstring.reported_once", "Docstring.second_call_silent", "Docstring.doc_second_call", "Docstring.isolation",
     "Docstring.summary_fallback_touches_source", "Docstring.extract_spec",
+    "Docstring.summary_failure_unreported_counterexample", "Docstring.blanked_docstring_fallback_counterexample",
     # the further wrappers (round 3)
     "Docstring.pyval_total", "Docstring.pyval_failure_reported", "Docstring.signature_total",
     "Docstring.signature_failure_reported", "Docstring.type_total", "Docstring.constant_total",
@@ -195,6 +196,8 @@ class World:
         s.options.processtypes = bool(pt)
         s.options.sidebartocdepth = td
         s.parse_errors.clear()
+        if hasattr(s, "reported_errors"):      # the dedup set of the proposed fix for report:render-failure-masked-…
+            s.reported_errors.clear()
         s.once_msgs.clear()
         s.violations = 0
         for i, o in enumerate(self.objs):
@@ -1155,6 +1158,15 @@ def fault_oracle(ctx: Ctx, w: World, spec: Dict[str, Any], trace) -> None:
     for t in trace:
         if t["op"] == "y" and t["raised"] is None and t["tok"] in ("typ=code", "typ=broken") and t["obj"] not in ann_now:
             fail("type:fallback-not-reported", "the type's to_stan failed (plain-text fallback shown) but nothing was reported in section annotation")
+    # a summary whose renderer failed shows the BROKEN placeholder: the problem must have been reported against the source
+    for t in trace:
+        if t["op"] == "s" and t["raised"] is None and t["tok"] == "sum=broken":
+            srcs = spec_source(spec, t["obj"])
+            srcs = PARENT[t["obj"]] if srcs is None and spec["objs"].get(t["obj"], {}).get("parsed") is not None else srcs
+            srcs = t["obj"] if srcs is None else srcs
+            if srcs not in errs_now:
+                fail("summary:render-failure-unreported", "the summary's renderer failed ('Broken description' is shown in the listings) and "
+                     "nothing was reported against the object: format_summary calls safe_to_stan with report=False")
     sources = {spec_source(spec, i) for i in touched} | {PARENT[i] for i in touched if spec["objs"].get(i, {}).get("parsed") is not None}
     for i, o in enumerate(w.objs):
         if i in touched or i in sources:
@@ -1213,6 +1225,9 @@ def fault_oracle(ctx: Ctx, w: World, spec: Dict[str, Any], trace) -> None:
                         fail("render-fallback:display-differs", "to_stan raised but the body shown is not the whole original docstring")
                 if shown and src not in errs_now:
                     fail("render-fallback:not-reported", "to_stan raised and the object is not among the reported objects")
+                elif shown and not any(d.startswith("bad docstring: ValueError: E" + p["S"][2:]) for d in reported.get(src, [])):
+                    fail("report:render-failure-masked-by-earlier-warning", "to_stan raised, the whole text is shown as plain text, but the "
+                         "log only has the parser's earlier warning(s): reportErrors files one group per (section, object)")
             pt_applies = bool(spec["pt"]) and fmt not in "gnp"
             # the fields whose handler formats the body (`ivar` never; `type` not for an Attribute, else only with an argument)
             formatted = [f for f in p["F"] if f[0] in (0, 1) or (f[0] == 2 and x not in ATTRS and len(f) > 3 and f[3] is not None)]
@@ -1462,6 +1477,10 @@ REGRESSION_DOCS = [
     ":type: ``a\xa0b``",
     "int or ``a\xa0\xa0b``: the x",
     "The x.\n\n@type: L{int} or C{None}",
+    "Unclosed `role\n\nand a \ufffe char",
+    "Doc.\n\n@param x the widget\n\nand a \ufffe char",
+    "Summary with \ufffe char.\n\nBody.",
+    "Summary with \x0c char.",
     " - item \u0301\x0f\x05m\x02B\u2029\xa0\x10\x92",
     "Args:\n x (list[int\n\nReturns\n-------\n",
 ]
@@ -1799,7 +1818,7 @@ def real_oracle(ctx: Ctx, w: World, fmt: str, pt: int, x: int, doc: str, td: int
                 for t in shown:
                     if t["body"] != "pre:" + enc(doc):
                         fail("epytext:fatal-error:display-differs", "fatal epytext error but the body shown is not the whole original text")
-            if errs and (hold not in errs_now or len(mine) != len(errs)):
+            if errs and (hold not in errs_now or len(mine) < len(errs)):   # (a renderer failure may add one more line)
                 fail("recovered-errors:not-reported", "the parser stored %d error(s) and returned; %d were reported against the object"
                      % (len(errs), len(mine)))
             if not errs and (x in errs_now and not any(t["body"].startswith("pre:") and fmt != "p" for t in shown)):
@@ -1831,6 +1850,13 @@ def real_oracle(ctx: Ctx, w: World, fmt: str, pt: int, x: int, doc: str, td: int
                      % (type(fresh_exc).__name__, len(hidden), len(shown), "".join(t["op"] for t in trace if t["obj"] == x)))
             elif hold not in errs_now:
                 fail("render-fallback:not-reported", "to_stan failed and the object the docstring is written on is not among the reported objects")
+            elif not any(type(fresh_exc).__name__ in r[1] for r in mine):
+                fail("report:render-failure-masked-by-earlier-warning", "rendering failed (%s) and the whole text is shown as plain text, but only "
+                     "the parser's earlier warning(s) are in the log (%d line(s)): reportErrors files one group per (section, object)"
+                     % (type(fresh_exc).__name__, len(mine)))
+    if any(t["op"] == "s" and t["obj"] == x and t["raised"] is None and t["tok"] == "sum=broken" for t in trace) and hold not in errs_now:
+        fail("summary:render-failure-unreported", "the summary's renderer failed ('Broken description' is shown in the listings), the body "
+             "rendered, and nothing was reported against the object (format_summary calls safe_to_stan with report=False)")
     # section anchors: pairwise distinct in the body, and every link of the table of contents leads to one of them
     lastd = next((t for t in reversed(shown) if t["flat_err"] is None and not t["body"].startswith("pre:")), None)
     lastt = next((t for t in reversed(trace) if t["op"] == "t" and t["obj"] == x and t["stan"] is not None and not t["flat_err"]), None)
@@ -1861,12 +1887,23 @@ def real_oracle(ctx: Ctx, w: World, fmt: str, pt: int, x: int, doc: str, td: int
 
 # ------------------------------------------------------------------ oracle-only stream: lone surrogates through the AST builder
 
-def surrogate_case(ctx: Ctx, fmt: str, pt: int, doc: str, limit: float) -> None:
-    """the docstring reaches the objects the way it does in a run: as a string literal in module source"""
+BUILDER_DOCS = [
+    "@return: the \ufffe value", "@return: the \x0c value", ":return: the \ufffe value", "Returns:\n    the \ufffe value",
+    "@return: the value", "@return: the B{unclosed value", "The value.\n\n@return: it", "@rtype: C{int}\n@return: the \ufffe value",
+    "Plain \ufffe text.", "@return:", "@return: x\n@return: y \x0c",
+]
+
+
+def builder_case(ctx: Ctx, fmt: str, pt: int, doc: str, limit: float) -> None:
+    """the docstring reaches the objects the way it does in a run: as a string literal in module source, through the AST
+    builder (module, class, method, attribute, PROPERTY) — oracle only"""
+    import inspect
     from pydoctor import model, epydoc2stan as E
     lit = repr(doc)
-    src = "%s\nclass K:\n    %s\n    def f(self):\n        %s\n    a = 1\n    %s\n" % (lit, lit, lit, lit)
-    inp = {"kind": "surrogate", "fmt": fmt, "pt": pt, "doc_repr": lit}
+    src = ("%s\nclass K:\n    %s\n    def f(self):\n        %s\n    a = 1\n    %s\n    @property\n    def p(self):\n        %s\n        return 1\n"
+           % (lit, lit, lit, lit, lit))
+    surrogate = any(0xD800 <= ord(c) < 0xE000 for c in doc)
+    inp = {"kind": "builder", "fmt": fmt, "pt": pt, "doc_repr": lit}
     s = model.System()
     s.options.docformat = FMT_OF[fmt]
     s.options.processtypes = bool(pt)
@@ -1879,28 +1916,40 @@ def surrogate_case(ctx: Ctx, fmt: str, pt: int, doc: str, limit: float) -> None:
         ctx.fail("hang:build", inp, "building the module did not finish")
         return
     except Exception as e:
-        ctx.fail("build:raises:" + type(e).__name__, inp, "building a module whose docstrings contain a lone surrogate raised")
+        ctx.fail("build:raises:" + type(e).__name__, inp, "building a module with this docstring raised")
         return
-    for name in ("sm", "sm.K", "sm.K.f", "sm.K.a"):
+    written = inspect.cleandoc(doc)
+    for name in ("sm", "sm.K", "sm.K.f", "sm.K.a", "sm.K.p"):
         o = s.allobjects[name]
-        for opn, fn in (("docstring", E.format_docstring), ("summary", E.format_summary), ("toc", E.format_toc)):
+        for opn, fn in (("summary", E.format_summary), ("docstring", E.format_docstring), ("toc", E.format_toc)):
             try:
                 with quiet(), time_limit(limit):
                     st = fn(o)
-                    err = None if st is None else flatten_safely(st)[1]
+                    html, err = (None, None) if st is None else flatten_safely(st)
             except Hang:
                 ctx.fail("hang:" + opn, inp, opn + " did not return")
                 continue
             except Exception as e:
                 ctx.fail("%s:raises:%s" % (opn, type(e).__name__), inp, "%s raised %s" % (opn, type(e).__name__))
                 continue
-            if err == "UnicodeEncodeError":
+            if err == "UnicodeEncodeError" and surrogate:
                 ctx.fail("render:lone-surrogate-unicodeencodeerror", inp,
                          "the stan returned by format_%s for a docstring containing a lone surrogate (written as an escape in the "
                          "source) cannot be flattened: UnicodeEncodeError in twisted's flattener, under every docformat" % opn)
             elif err:
                 ctx.fail("flatten:%s:%s" % (opn, err), inp, "stan returned by %s cannot be flattened" % opn)
-        ctx.count("surrogate:objects")
+            elif opn == "docstring" and not surrogate:
+                m = PRE_RE.match(html or "")
+                if m and fmt != "p" and htmlmod.unescape(m.group(1)) != written:
+                    sig = "property:return-only-docstring:fallback-text-lost" if name == "sm.K.p" else "fallback:visible-text-differs:" + name.rsplit(".", 1)[-1]
+                    ctx.fail(sig, inp, "%s: the docstring fell back to plain text, but what is shown (%r) is not the text that was "
+                             "written (%r)%s" % (name, htmlmod.unescape(m.group(1))[:40], written[:40],
+                                                 ": _handlePropertyDef blanks attr.docstring when the docstring is only a @return field" if name == "sm.K.p" else ""))
+        ctx.count("builder:objects")
+
+
+def surrogate_case(ctx: Ctx, fmt: str, pt: int, doc: str, limit: float) -> None:
+    builder_case(ctx, fmt, pt, doc, limit)
 
 
 # ------------------------------------------------------------------ epytext _slugify stream
@@ -2065,7 +2114,11 @@ def run(ctx: Ctx) -> None:
     ctx.compare("epytext.parse~Docstring.epytextSignal", sreqs, simpls, spay)
     # ---- (b2) epytext's anchor-uniquifying loop: the real ParsedEpytextDocstring._slugify vs slugLoop (slugify is the parameter)
     slug_stream(ctx, 300 if ctx.quick else 5000, max_hangs)
-    # ---- (c) lone surrogates (oracle only: they cannot travel to the model)
+    # ---- (c) through the AST builder, property included (oracle only): fixed shapes, then lone surrogates
+    for n, doc in enumerate(BUILDER_DOCS + REGRESSION_DOCS):
+        for fi, fmt in enumerate("ergnp"):
+            builder_case(ctx, fmt, (n + fi) % 2, doc, limit)
+            ctx.case("builder %s %r" % (fmt, doc), True, None)
     nsur = 6 if ctx.quick else 60
     for n in range(nsur):
         doc = gen_unicode(ctx.rng, surrogates=True) if n else "x \udc80 y"
@@ -2103,7 +2156,7 @@ def replay(ctx: Ctx, obj) -> int:
         print("impl   :", impl)
         if verdict:
             ctx.fail(verdict[0], inp, verdict[1])
-    elif inp.get("kind") == "surrogate":
+    elif inp.get("kind") in ("surrogate", "builder"):
         n0 = len(ctx.failures)
         surrogate_case(ctx, inp["fmt"], inp["pt"], ast.literal_eval(inp["doc_repr"]), 20.0)
         req = None
